@@ -458,6 +458,48 @@ def SIn.val (a : SIn K) : SProp → Option (Payload K)
 
 end sobj
 
+/-! ### where the neighbour list comes from
+
+  `slip_vector`, `Strain.__init__`, `Strain.build_p_vectors`, `nye_tensor` and `differential_displacement` share
+  one block: an explicit `neighbors` list (together with `cutoff`: `AssertionError`), else the list built for the
+  given `cutoff`, else the `neighbors` attribute of the system, else `ValueError`. -/
+
+inductive NbrErr where
+  | assert | value
+deriving DecidableEq, Repr
+
+/-- `cutoff` carries the list the builder returns for the given cutoff (building it is property C03);
+    `attr` the `neighbors` attribute of the system when it has one. -/
+def pickNeighbors {L : Type} (neighbors cutoff attr : Option L) : Except NbrErr L :=
+  match neighbors, cutoff, attr with
+  | some _, some _, _ => .error .assert
+  | some nl, none, _ => .ok nl
+  | none, some l, _ => .ok l
+  | none, none, some l => .ok l
+  | none, none, none => .error .value
+
+/-- `Strain(system, neighbors, cutoff, basesystem, baseneighbors)`: the list of the analysed system first, then —
+    with a `basesystem` — the list its p vectors are built from (`build_p_vectors(basesystem, baseneighbors, cutoff)`:
+    the SAME `cutoff` argument, the list built for the base system).  `base = none`: no `basesystem`. -/
+def strainSources {L : Type} (neighbors cutSys attr : Option L) (base : Option (Option L × Option L × Option L)) :
+    Except NbrErr (L × Option L) :=
+  match pickNeighbors neighbors cutSys attr with
+  | .error e => .error e
+  | .ok nl =>
+    match base with
+    | none => .ok (nl, none)
+    | some b =>
+      match pickNeighbors b.1 b.2.1 b.2.2 with
+      | .error e => .error e
+      | .ok pl => .ok (nl, some pl)
+
+/-- `slip_vector(system_0, system_1, neighbors, cutoff)` as a whole. -/
+def slipVectorCall (c : Cell K) (pos0 pos1 : Nat → V3 K) (neighbors cutoff attr : Option (Nat → List Nat)) (i : Nat) :
+    Except NbrErr (V3 K) :=
+  match pickNeighbors neighbors cutoff attr with
+  | .error e => .error e
+  | .ok nl => .ok (slipVector c pos0 pos1 (nl i) i)
+
 /-! ### the `DifferentialDisplacement` object -/
 
 structure Sys (K : Type) where
